@@ -216,6 +216,69 @@ def check_unsupported(spec: dict) -> core.CaseResult:
                            summary={'bad': spec['bad'], 'depth': spec['bad_depth']})
 
 
+# -- equal tasks built from equal-but-differently-spelt parameters hash equal ------------------------------------
+
+def eq_variant(tree: dict, picks: list) -> dict:
+    """A tree whose VALUE is equal under Python's == but spelt differently: dict items in another insertion order,
+    1 <-> 1.0 <-> True <-> IntEnum member, 'a' <-> StrEnum member."""
+    it = iter(picks + [0] * 1000)
+
+    def go(t):
+        k = t['k']
+        p = next(it)
+        if k in ('dict', 'fdict') and len(t['items']) >= 2:
+            items = [[kk, go(v)] for kk, v in t['items']]
+            if p % 2:
+                items = items[::-1]
+            else:
+                items = items[1:] + items[:1]
+            return {'k': k, 'items': items}
+        if k in ('dict', 'fdict'):
+            return {'k': k, 'items': [[kk, go(v)] for kk, v in t['items']]}
+        if k in ('list', 'tuple'):
+            return {'k': k, 'items': [go(x) for x in t['items']]}
+        if k == 'task':
+            return {**t, 'fields': {f: go(v) for f, v in t['fields'].items()}}
+        if k == 'int' and abs(int(t['v'])) < 2**53:
+            i = int(t['v'])
+            opts = [t, {'k': 'float', 'v': float(i).hex()}]
+            if i in (0, 1):
+                opts.append({'k': 'bool', 'v': bool(i)})
+            if i in (0, 1, 2):
+                opts.append({'k': 'enum', 'cls': 'Num', 'name': {0: 'ZERO', 1: 'ONE', 2: 'TWO'}[i], 'mod': 'vu'})
+            return opts[p % len(opts)]
+        if k == 'bool':
+            return [t, {'k': 'int', 'v': str(int(t['v']))}, {'k': 'float', 'v': float(t['v']).hex()}][p % 3]
+        if k == 'str' and ptrees.cp2s(t['v']) in ('a', 'RED', ''):
+            name = {'a': 'A', 'RED': 'RED', '': 'EMPTY'}[ptrees.cp2s(t['v'])]
+            return [t, {'k': 'enum', 'cls': 'Sx', 'name': name, 'mod': 'vu'}][p % 2]
+        return t
+    return go(tree)
+
+
+def check_eq_variants(spec: dict) -> core.CaseResult:
+    findings = []
+    a = ptrees.build(spec['tree'])
+    vt = eq_variant(spec['tree'], spec['picks'])
+    b = ptrees.build(vt)
+    same_spelling = core.canon_json(vt) == core.canon_json(spec['tree'])
+    equal = (a == b)
+    if equal:
+        try:
+            if hash(a) != hash(b):
+                findings.append(core.Finding('C15:equal-tasks-hash-differently', f'{a!r} == {b!r} but hashes differ'))
+            elif len({a, b}) != 1 or b not in {a: 1}:
+                findings.append(core.Finding('C15:equal-tasks-do-not-collapse-in-a-set', f'{a!r} / {b!r}'))
+        except Exception as ex:
+            findings.append(core.Finding(f'C15:hash-raised:{type(ex).__name__}', repr(ex)[:200]))
+        t2 = pickle.loads(pickle.dumps(b))
+        if not (t2 == a) or hash(t2) != hash(a):
+            findings.append(core.Finding('C15:pickled-copy-of-an-equal-task-not-equal-or-hash-differs', f'{t2!r} vs {a!r}'))
+    return core.CaseResult(findings=findings, nontrivial=bool(equal and not same_spelling),
+                           labels=('eq_variant:' + ('equal' if equal else 'not-equal') + (':same-spelling' if same_spelling else ':respelt'),),
+                           summary={'a': repr(a)[:300], 'b': repr(b)[:300]})
+
+
 # -- after-run pickles carry no results / context ------------------------------------------------------
 
 def _rm_run(self):
@@ -292,6 +355,7 @@ def plan(tier: str) -> list[dict]:
     jobs = [{'engine': 'supported', 'n': 300 if q else 15000, 'hashseed': i % 8} for i in range(9)]
     jobs += [{'engine': 'unsupported', 'n': 400 if q else 15000, 'hashseed': i % 8} for i in range(5)]
     jobs += [{'engine': 'after_run', 'n': 25 if q else 600, 'hashseed': i} for i in range(2)]
+    jobs += [{'engine': 'eq_variants', 'n': 400 if q else 15000, 'hashseed': i} for i in range(2)]
     return jobs
 
 
@@ -299,6 +363,10 @@ def run_job(rec: core.Recorder, job: dict, seed: int) -> None:
     e = job['engine']
     if e == 'supported':
         core.run_hypothesis(rec, e, ptrees.task_tree(nan=True, subclasses=True, max_leaves=10), check_supported, max_examples=job['n'], seed=seed)
+    elif e == 'eq_variants':
+        strat = st.builds(lambda t, picks: {'tree': t, 'picks': picks},
+                          ptrees.task_tree(max_leaves=10, markers=False), st.lists(st.integers(0, 5), min_size=4, max_size=30))
+        core.run_hypothesis(rec, e, strat, check_eq_variants, max_examples=job['n'], seed=seed)
     elif e == 'unsupported':
         core.run_hypothesis(rec, e, unsupported(), check_unsupported, max_examples=job['n'], seed=seed)
     else:
@@ -309,6 +377,8 @@ def run_job(rec: core.Recorder, job: dict, seed: int) -> None:
 
 def replay(record: dict) -> core.CaseResult:
     case = record['case']
+    if 'picks' in case:
+        return check_eq_variants(case)
     if 'backend' in case:
         return check_after_run(case)
     if 'bad' in case:
